@@ -47,7 +47,8 @@ def _install():
 
 
 SOFT_LIMIT = float(os.environ.get('VERIF_CASE_SOFT_S', '20'))
-STEP_BUDGET = int(os.environ.get('VERIF_STEP_BUDGET', '30000000'))
+STEP_BUDGET = int(os.environ.get('VERIF_STEP_BUDGET', '5000000'))
+_state = {'soft': SOFT_LIMIT, 'confirmed': 0}
 
 
 def guarded(fn, *a, **kw):
@@ -55,15 +56,21 @@ def guarded(fn, *a, **kw):
     counter (sys.monitoring PY_START/PY_RESUME events).  Only exceeding the
     step budget is reported as non-termination."""
     _install()
-    signal.setitimer(signal.ITIMER_REAL, SOFT_LIMIT)
+    signal.setitimer(signal.ITIMER_REAL, _state['soft'])
     try:
         return ('ok', fn(*a, **kw))
     except CaseTimeout:
         pass
     finally:
         signal.setitimer(signal.ITIMER_REAL, 0)
-    # confirm under the step counter
-    return run_with_step_budget(fn, a, kw, STEP_BUDGET)
+    # confirm under the step counter (the verdict is logical, the alarm only a trigger)
+    r = run_with_step_budget(fn, a, kw, STEP_BUDGET)
+    if r[0] == 'nonterm':
+        _state['confirmed'] += 1
+        # once non-termination has been confirmed in this worker, trigger the logical check
+        # earlier so that a looping mutant does not cost 20 s per case
+        _state['soft'] = 2.0 if _state['confirmed'] < 3 else 0.5
+    return r
 
 
 def run_with_step_budget(fn, a, kw, budget):
